@@ -98,7 +98,9 @@ class RecTransport(Transport):
 def wf_messages(rng, tier: str):
     """Well-formed messages: boundary product plus random ones."""
     ids = gen.ID_VALUES
-    types = [0, 3, 4, 2, 9, 14, 19, 22, 32, 49, -5, 10**20]
+    # type numbers: table values, and integer-width boundaries (a type is any integer): t, t +/- 2^16, 2^31, 2^32, 2^63, 2^64
+    types = [0, 3, 4, 2, 9, 14, 19, 22, 32, 49, -5, 10**20,
+             2 + 2**16, 3 + 2**16, 2**16 - 1, 2**16, 2 - 2**16, 2**31 - 1, 2**31, 2 + 2**32, 2**63, 2 + 2**64, -(2**63) - 1]
     out = []
     for n, c, cmd, ack, t in itertools.product([0, 1, 255], ids, range(5), (0, 1), types):
         out.append((n, c, cmd, ack, t))
@@ -127,11 +129,18 @@ def run_c01(ctx) -> Corr:
     for c in lib.load_corpus("C01"):
         cases.append((c["version"], tuple(c["fields"]), c["payload"], "corpus"))
     msgs = [m for m in wf_messages(rng, ctx.tier) if cross_ok(m[1], m[2], m[4])]
+    n_product = 3 * len(gen.ID_VALUES) * 5 * 2 * 23
     for i, m in enumerate(msgs):
         label, p = gen.payload(rng)
         if not gen.is_c01_payload(p):
             continue
-        cases.append((lib.VERSIONS[i % 5], m, p, label))
+        if i < n_product:
+            # the boundary product runs under EVERY version, each on one long-lived schema instance:
+            # an encoder or decoder that keeps state between messages must not change any result
+            for v in lib.VERSIONS:
+                cases.append((v, m, p, label))
+        else:
+            cases.append((lib.VERSIONS[i % 5], m, p, label))
     schemas = {v: schema_for(v) for v in lib.VERSIONS}
     ops = []
     impl = []
